@@ -327,6 +327,39 @@ class Scan:
                 out.append((name, self.calls_self(f, '_invalidate'), 'direct' if direct else 'via-_add'))
         return out
 
+    def add_invalidate_mode(self):
+        """(single, multi): is `self._invalidate()` in `add` reached after adding one line / after adding a
+        multi-line string (for which `_add` returns None)?  Top-level statement: both.  Inside
+        `if <var> is not None` / `if <var>` where <var> holds the result of `self._add(...)`: single line only.
+        Under any other condition: neither is assumed (recorded as unparsed)."""
+        ent = self.members.get('add')
+        if ent is None:
+            self.unparsed.append('no-add')
+            return (False, False)
+        f = ent[2]
+        addvars = set()
+        for n in ast.walk(f):
+            if isinstance(n, ast.Assign) and isinstance(n.value, ast.Call) and isinstance(n.value.func, ast.Attribute) \
+                    and n.value.func.attr == '_add' and len(n.targets) == 1 and isinstance(n.targets[0], ast.Name):
+                addvars.add(n.targets[0].id)
+
+        def is_inv(st):
+            return isinstance(st, ast.Expr) and isinstance(st.value, ast.Call) and isinstance(st.value.func, ast.Attribute) \
+                and st.value.func.attr == '_invalidate' and isinstance(st.value.func.value, ast.Name) and st.value.func.value.id == 'self'
+        for st in f.body:
+            if is_inv(st):
+                return (True, True)
+        for st in f.body:
+            if isinstance(st, ast.If) and any(is_inv(x) for x in st.body):
+                t = ast.unparse(st.test).replace(' ', '')
+                if any(t in (v + 'isnotNone', v, v + '!=None') for v in addvars):
+                    return (True, False)
+                self.unparsed.append('add:_invalidate under condition ' + t)
+                return (False, False)
+        if any(is_inv(x) for x in ast.walk(f) if isinstance(x, ast.Expr)):
+            self.unparsed.append('add:_invalidate nested')
+        return (False, False)
+
     def override_detaches(self):
         ent = self.members.get('_cpt_add')
         if ent is None:
@@ -442,6 +475,26 @@ class Scan:
                                 continue
                             if p not in rp:
                                 rp.append(p)
+                # keyword parameters of methods that are called with `**kwargs` inside the class
+                # (e.g. derivative_undef(self, expr, t, s, zero_initial_conditions=True))
+                fwd = set()
+                for f in cls.body:
+                    if isinstance(f, ast.FunctionDef):
+                        for n in ast.walk(f):
+                            if isinstance(n, ast.Call) and isinstance(n.func, ast.Attribute) and isinstance(n.func.value, ast.Name) \
+                                    and n.func.value.id == 'self' and any(k.arg is None and isinstance(k.value, ast.Name)
+                                                                         and k.value.id in ('kwargs', 'assumptions') for k in n.keywords):
+                                fwd.add(n.func.attr)
+                for f in cls.body:
+                    if isinstance(f, ast.FunctionDef) and f.name in fwd and f.name != 'key':
+                        a = f.args
+                        pos = a.args[len(a.args) - len(a.defaults):] if a.defaults else []
+                        for arg, d in list(zip(pos, a.defaults)) + [(x, y) for x, y in zip(a.kwonlyargs, a.kw_defaults) if y is not None]:
+                            dv = ast.unparse(d)
+                            dv = {'True': 'true', 'False': 'false', 'None': 'false', '0': 'false'}.get(dv, dv)
+                            p = (arg.arg, dv)
+                            if arg.arg not in ('pdb', 'debug') and p not in rp:
+                                rp.append(p)
                 out.append((cls.name, fn, kp, rp))
         return out
 
@@ -517,7 +570,10 @@ def generate(repo):
     L.append('def config : Config where')
     L.append('  memoised := memoised')
     L.append('  cleared := cleared')
-    L.append('  addInvalidates := %s' % ('true' if mutd.get('add') else 'false'))
+    add1, addn = sc.add_invalidate_mode()
+    info['addInvalidates'] = [add1, addn]
+    L.append('  addInvalidates := %s' % ('true' if add1 else 'false'))
+    L.append('  addMultiInvalidates := %s' % ('true' if addn else 'false'))
     L.append('  removeInvalidates := %s' % ('true' if mutd.get('remove') else 'false'))
     L.append('  initInvalidates := %s' % ('true' if init_inv else 'false'))
     L.append('  overrideDetaches := %s' % ('true' if detach else 'false'))
